@@ -37,6 +37,9 @@ func (s *Sim) acctId(ref string) string {
 		return chain.CosmosAccountId(s.W.Cfg.ChainID, s.bech(i))
 	case 'o':
 		return chain.CosmosAccountId("otherchain-1", s.bech(i))
+	case 'T':
+		// cosmos account i on this chain, written with a trailing (empty) segment
+		return chain.CosmosAccountId(s.W.Cfg.ChainID, s.bech(i)) + ":"
 	case 'E':
 		// the same ethereum account as "e<i>", spelled with its EIP-55 checksum capitals
 		return "eip155:1:" + ethcrypto.PubkeyToAddress(ethKey(i).PublicKey).Hex()
@@ -50,6 +53,7 @@ func (s *Sim) acctId(ref string) string {
 
 // canonAccountId: two account ids that differ only in the letter case of an ethereum address name the same account.
 func canonAccountId(id string) string {
+	id = strings.TrimRight(id, ":") // an empty trailing segment names nothing
 	if strings.HasPrefix(id, "eip155:") {
 		return strings.ToLower(id)
 	}
@@ -70,7 +74,7 @@ func sidPriv(creator int, ts uint64, gen int) *secp256k1.PrivKey {
 // signProof signs message for the account ref with signer's key.
 func (s *Sim) signProof(ref, signer, pubOf, message string) string {
 	switch ref[0] {
-	case 'c', 'o':
+	case 'c', 'o', 'T':
 		addr := s.bech(atoi(ref[1:]))
 		sk := s.acct(atoi(signer[1:])).Priv
 		if isEth(signer) {
@@ -377,7 +381,7 @@ func c17Property(t *rapid.T) {
 	aborted := RunCase(func() {
 		now := uint64(s.C.Time.Unix())
 		cos := []string{"c2", "c3", "c4", "c5", "c6"}
-		all := append(append([]string{}, cos...), "e0", "e1", "o7", "E0", "U1")
+		all := append(append([]string{}, cos...), "e0", "e1", "o7", "E0", "U1", "T3", "T4")
 		var sids []int // indexes into s.Dids
 		gen := map[int]int{}
 		var binds []int // history indexes of successful-or-not bind messages (for replays)
